@@ -1,0 +1,13 @@
+//! C12: the HTTP request handler and the request processors of the units.
+pub use crate::http::{ProcessRequest, Resources, Server};
+pub use crate::units::bmp_tcp_in::verif_c12::{
+    router_info_api, router_list_api, RouterInfoHandle,
+};
+pub use crate::units::rib_unit::verif_c12::physical_prefixes_api;
+pub use crate::units::verif_mrt_c12::mrt_api_without_update_path;
+
+// The harness builds requests and reads responses with the same crates
+// rotonda is compiled against.
+#[cfg(feature = "http-api-gzip")]
+pub use ::flate2;
+pub use ::hyper;
